@@ -31,14 +31,14 @@ def run(tier):
     q = tier == "quick"
     ne, nf, ns = corpus_sizes()
     to = 900 if q else 3600
-    rng = {"H_LO": "-2", "H_HI": "2", "H_SLEN": "1"} if q else {"H_LO": "-3", "H_HI": "3", "H_SLEN": "2"}
+    rng = {"H_LO": "-2", "H_HI": "2", "H_SLEN": "1", "H_XMAX": "1"} if q else {"H_LO": "-3", "H_HI": "3", "H_SLEN": "2", "H_XMAX": "2"}
     conds = []
     # batches of consecutive programs, sized by cost: a program with a symbol reference runs the full Constraint.check() path on
     # every tree (x: 20 values, y: 4) and costs about as much as 5 others
     from harness import pycorpus as PC
     lo, cost = 0, 0
     for i, text in enumerate(PC.EXPRS + ["<sentinel>"]):
-        c = 5 if ("<x>" in text or "<y>" in text) else 1
+        c = (2 if q else 5) if ("<x>" in text or "<y>" in text) else 1
         if i == ne or (cost + c > 10 and i > lo):
             conds.append(Cond("h_pyembed.py", "equiv", to, twin="reach" if lo == 0 else None, path_timeout=to / 2,
                               env=dict(rng, H_KIND="expr", H_FROM=str(lo), H_TO=str(i))))
@@ -74,7 +74,7 @@ def run(tier):
                               f"scopes), {nf} unwrapped boolean formulas (and/or/not/comparison at the constraint level), {ns} helper-code programs (parameter kinds, "
                               "defaults, closures, control flow, exceptions, with, classes, augmented assignment, unpacking, imports, generators, decorators, ...); "
                               "ENUMERATED, not solver variables",
-                  "data": f"A_, B_, a, b in [{rng['H_LO']}, {rng['H_HI']}] (symbolic ints); S_/s: str over {{a,b}} of length <= {rng['H_SLEN']}; <x>: 1-2 leaves, <y>: 1 leaf over {{0,2,7,a}}"}
+                  "data": f"A_, B_, a, b in [{rng['H_LO']}, {rng['H_HI']}] (symbolic ints); S_/s: str over {{a,b}} of length <= {rng['H_SLEN']}; <x>: 1..{rng['H_XMAX']} leaves, <y>: 1 leaf over {{0,2,7,a}}"}
     run.outside = ["the space of PROGRAMS (the reader cannot run on symbolic text): only the listed corpus is decided, each program for all data in the bound",
                    "AST equality with CPython's parser (a stronger, non-solver statement); programs the reader rejects with an error are reported, not compared",
                    "generator expressions (`:=`) and repetition-bound expressions go through the same SearchProcessor but other eval sites; not executed here",
